@@ -153,10 +153,29 @@ func diffRows(d *run.DiffObs) []string {
 	return rows
 }
 
-func runPipe(em *emitter, root string, id int, scn pipeScn, baseDir, otherDir, otherJunkDir string, baseList []string, baseDiff1, baseDiff2 []string) {
+// hasPolicy: the scenario's good documents include the NetworkPolicy g4 (the template without any policy has its own baselines)
+func hasPolicy(scn *pipeScn) bool {
+	for _, f := range scn.Files {
+		for _, d := range f.Docs {
+			if d == "g4" {
+				return true
+			}
+		}
+	}
+	return false
+}
+
+type pipeBase struct{ list, diff1, diff2 []string }
+
+func runPipe(em *emitter, root string, id int, scn pipeScn, otherDir, otherJunkDir string, withPol, noPol pipeBase) {
 	if scn.Other == "junk" {
 		otherDir = otherJunkDir
 	}
+	base := noPol
+	if hasPolicy(&scn) {
+		base = withPol
+	}
+	baseList, baseDiff1, baseDiff2 := base.list, base.diff1, base.diff2
 	w := &world.World{M: 3, NAddr: 2}
 	w.Normalize()
 	conc := world.NewConc(w, 1)
@@ -272,14 +291,21 @@ func cmdPipeline(args []string) int {
 	os.MkdirAll(otherJunkDir, 0o755)
 	os.WriteFile(filepath.Join(otherJunkDir, "all.yaml"), []byte(strings.Join([]string{nokindFiles[0], goodDocs["g1"], goodDocs["g2"], goodDocs["g3"], otherPolicy}, "---\n")), 0o644)
 	os.WriteFile(filepath.Join(otherJunkDir, "zz-notes.yaml"), []byte(nokindFiles[1]), 0o644)
-	bl, _, _ := run.List(baseDir, w, conc, run.ListOpts{})
-	bd1, _ := run.Diff(baseDir, otherDir, w, conc, false, "")
-	bd2, _ := run.Diff(otherDir, baseDir, w, conc, false, "")
-	if bl.Outcome != "ok" || len(bl.Conns) == 0 || bd1.Outcome != "ok" || len(bd1.Entries) == 0 {
-		fmt.Fprintln(os.Stderr, "baseline runs failed")
-		return 2
+	// a second baseline: the good documents of the template that has no NetworkPolicy at all
+	baseNoPolDir := filepath.Join(root, "base-nopol")
+	os.MkdirAll(baseNoPolDir, 0o755)
+	os.WriteFile(filepath.Join(baseNoPolDir, "all.yaml"), []byte(strings.Join([]string{goodDocs["g1"], goodDocs["g2"], goodDocs["g3"]}, "---\n")), 0o644)
+	var bases [2]pipeBase
+	for k, bdir := range []string{baseDir, baseNoPolDir} {
+		bl, _, _ := run.List(bdir, w, conc, run.ListOpts{})
+		bd1, _ := run.Diff(bdir, otherDir, w, conc, false, "")
+		bd2, _ := run.Diff(otherDir, bdir, w, conc, false, "")
+		if bl.Outcome != "ok" || len(bl.Conns) == 0 || bd1.Outcome != "ok" || len(bd1.Entries) == 0 {
+			fmt.Fprintln(os.Stderr, "baseline runs failed")
+			return 2
+		}
+		bases[k] = pipeBase{listRows(&bl), diffRows(&bd1), diffRows(&bd2)}
 	}
-	baseList, baseDiff1, baseDiff2 := listRows(&bl), diffRows(&bd1), diffRows(&bd2)
 	var wg sync.WaitGroup
 	for s := 0; s < *shards; s++ {
 		wg.Add(1)
@@ -291,7 +317,7 @@ func cmdPipeline(args []string) int {
 			}
 			defer em.close()
 			for k := s; k < len(cs); k += *shards {
-				runPipe(em, filepath.Join(root, fmt.Sprintf("p%02d", s)), k, cs[k], baseDir, otherDir, otherJunkDir, baseList, baseDiff1, baseDiff2)
+				runPipe(em, filepath.Join(root, fmt.Sprintf("p%02d", s)), k, cs[k], otherDir, otherJunkDir, bases[0], bases[1])
 			}
 		}(s)
 	}
